@@ -471,16 +471,19 @@ func (ex *Exec) runBlock(fr *Frame) {
 	if ex.maxVisits > 0 && fr.visits[b] > ex.maxVisits && !ex.initMode {
 		ex.abort("unwind", "block %d of %s visited > %d times", b.Index, fr.fn.String(), ex.maxVisits)
 	}
-	for _, in := range b.Instrs {
-		ex.steps++
-		if ex.steps > ex.maxSteps {
-			ex.abort("unwind", "step cap %d exceeded in %s", ex.maxSteps, fr.fn.String())
+	// phi nodes are evaluated IN PARALLEL: all incoming values are read before any phi is
+	// assigned (a phi may name another phi of the same block as its operand)
+	nphi := 0
+	for nphi < len(b.Instrs) {
+		if _, ok := b.Instrs[nphi].(*ssa.Phi); !ok {
+			break
 		}
-		if p := in.Pos(); p.IsValid() {
-			ex.curPos = p
-		}
-		switch x := in.(type) {
-		case *ssa.Phi:
+		nphi++
+	}
+	if nphi > 0 {
+		vals := make([]Value, nphi)
+		for k := 0; k < nphi; k++ {
+			x := b.Instrs[k].(*ssa.Phi)
 			if mp := fr.mergePhi; mp != nil && mp.join == b {
 				var vt, vf Value
 				for i, pred := range b.Preds {
@@ -496,18 +499,39 @@ func (ex *Exec) runBlock(fr *Frame) {
 				if !ok1 || !ok2 {
 					panic("if-conversion: non-scalar phi")
 				}
-				ex.set(fr, x, ex.tc.Ite(mp.cond, tt, tf))
-				break
+				vals[k] = ex.tc.Ite(mp.cond, tt, tf)
+				continue
 			}
 			for i, pred := range b.Preds {
 				if pred == fr.prev {
-					ex.set(fr, x, ex.get(fr, x.Edges[i]))
+					vals[k] = ex.get(fr, x.Edges[i])
 					break
 				}
 			}
+		}
+		for k := 0; k < nphi; k++ {
+			x := b.Instrs[k].(*ssa.Phi)
+			ex.set(fr, x, vals[k])
 			if len(ex.havocs) > 0 {
 				ex.maybeHavoc(fr, x)
 			}
+		}
+		ex.steps += int64(nphi)
+		if mp := fr.mergePhi; mp != nil && mp.join == b {
+			fr.mergePhi = nil
+		}
+	}
+	for _, in := range b.Instrs {
+		ex.steps++
+		if ex.steps > ex.maxSteps {
+			ex.abort("unwind", "step cap %d exceeded in %s", ex.maxSteps, fr.fn.String())
+		}
+		if p := in.Pos(); p.IsValid() {
+			ex.curPos = p
+		}
+		switch x := in.(type) {
+		case *ssa.Phi:
+			// handled in parallel at block entry
 		case *ssa.If:
 			c := ex.get(fr, x.Cond).(*Term)
 			var taken bool
